@@ -4450,6 +4450,9 @@ func (p *printer) printStmt(stmt js_ast.Stmt, flags printStmtFlags) {
 			p.options.Indent++
 			p.printIndent()
 		}
+		// A for-in head must not start with "let [" (it would be a declaration),
+		// so parenthesize a leading "let" identifier like a for-of head does
+		p.forOfInitStart = len(p.js)
 		p.printForLoopInit(s.Init, forbidIn)
 		p.printSpace()
 		p.printSpaceBeforeIdentifier()
@@ -4632,6 +4635,8 @@ func (p *printer) printStmt(stmt js_ast.Stmt, flags printStmtFlags) {
 			p.printIndent()
 		}
 		if init.Data != nil {
+			// The same applies to "for (let[x];;)"
+			p.forOfInitStart = len(p.js)
 			p.printForLoopInit(init, forbidIn)
 		}
 		p.print(";")
